@@ -117,6 +117,36 @@ func (w *World) predictedRejection(cr *CallRec, against *State) (bool, string) {
 	if cr.Spec == nil {
 		return false, ""
 	}
+	if cr.Kind == OpBegin {
+		// tables are judged one by one: a refused table does not end the
+		// transaction, later tables are checked on top of the accepted ones
+		var accepted [][]Ref
+		why := ""
+		for _, wt := range cr.Written {
+			if !wt.Rejected {
+				if !wt.Empty {
+					accepted = append(accepted, wt.Refs)
+				}
+				continue
+			}
+			switch {
+			case wt.Bad != "":
+				why = "bad:" + wt.Bad
+			case !w.Spec.Cfg.ExactLog && hasMultiline(wt.Logs):
+				why = "multiline-message"
+			default:
+				if w.Spec.Cfg.SkipNameCheck || against == nil {
+					return false, ""
+				}
+				ok, y := LegalTxn(against, append(append([][]Ref{}, accepted...), wt.Refs))
+				if ok {
+					return false, ""
+				}
+				why = "name:" + y
+			}
+		}
+		return why != "", why
+	}
 	var tabs [][]Ref
 	for _, wt := range cr.Written {
 		if wt.Bad != "" {
@@ -265,6 +295,7 @@ func (w *World) invoke(t *simrt.Task, hs *HandleState, op *OpSpec, cr *CallRec) 
 		}
 		hs.Tr, hs.TrOp, hs.TrWritten = tr, cr.Op, nil
 		next := hs.St.NextUpdateIndex()
+		var firstErr error
 		for i := range op.Txns {
 			base := next
 			span := op.Txns[i].Span
@@ -276,17 +307,18 @@ func (w *World) invoke(t *simrt.Task, hs *HandleState, op *OpSpec, cr *CallRec) 
 				next = base + uint64(span)
 			}
 			if err != nil {
-				// a failed table poisons nothing: the Addition stays open
-				// with the tables added so far, as the API allows
+				// a refused table poisons nothing: the Addition stays open,
+				// the caller may add further tables and commit, as the API allows
 				if n := len(cr.Written); n > 0 {
 					cr.Written[n-1].Rejected = true
 				}
-				hs.TrWritten = append([]WrittenTable(nil), cr.Written...)
-				return err
+				if firstErr == nil {
+					firstErr = err
+				}
 			}
 		}
 		hs.TrWritten = append([]WrittenTable(nil), cr.Written...)
-		return nil
+		return firstErr
 	case OpCommit, OpAbort:
 		if hs.Tr == nil {
 			return nil
@@ -505,7 +537,7 @@ func (w *World) afterOp(t *simrt.Task, hs *HandleState, cr *CallRec, before dirS
 			if cr.Err != nil {
 				msg = cr.Err.Error()
 			}
-			if isAdd && cr.Class == "error" && !w.Spec.Cfg.SkipNameCheck && (strings.Contains(msg, "existing ref") || strings.Contains(msg, "invalid name")) {
+			if (isAdd || cr.Kind == OpBegin) && cr.Class == "error" && !w.Spec.Cfg.SkipNameCheck && (strings.Contains(msg, "existing ref") || strings.Contains(msg, "invalid name")) {
 				w.violate("C12", "name-conflict", "rejected-legal/"+cr.Kind, fmt.Sprintf("legal transaction refused: %v", cr.Err))
 			} else if !(cr.Appends > 0) { // error-after-commit is already reported as ack-mismatch
 				w.violate("C04", "unexplained-failure", cr.Kind+"/"+cr.Class+"/"+errSite(cr.Err), fmt.Sprintf("%s through handle %d failed with %q; no lock contention, no staleness caused by others, no content rejection", cr.Kind, hs.Idx, msg))
@@ -574,6 +606,31 @@ func (w *World) afterOp(t *simrt.Task, hs *HandleState, cr *CallRec, before dirS
 	// ---- stale handle (C09), sequential histories only
 	if w.Sequential && cr.StaleAtStart && before.OK && cr.Class != "panic" {
 		w.checkStaleOp(hs, cr, before)
+	}
+	// C17: the automatic compaction that follows Add is attempted exactly
+	// when two adjacent tables share a size class - judged on the stack as
+	// this very Add left it, and only when nobody interfered.
+	if cr.Kind == OpAdd && cr.Class == "ok" && hs.Open && hs.Auto && cr.Appends == 1 && !cr.SawLockEEXIST && !cr.TimeFaulted && !cr.StaleAtStart && cr.AppendVersion > 0 {
+		foreign := false
+		for _, v := range w.Versions[cr.AppendVersion:] {
+			if v.Task != cr.Task || v.Op != cr.Op {
+				foreign = true
+			}
+		}
+		if !foreign {
+			v := w.Versions[cr.AppendVersion]
+			var sizes []int
+			for _, tc := range v.Tables {
+				sizes = append(sizes, tc.Bytes)
+			}
+			if adj, ok := sizeClasses(sizes, w.Spec.Cfg.Hash); ok {
+				attempted := hs.St.Stats.Attempts > cr.AttemptsBefore
+				w.probe("c17-judged-add-decision")
+				if attempted != adj {
+					w.violate("C17", "nothing-to-do-iff", fmt.Sprintf("after-add/attempted=%v", attempted), fmt.Sprintf("after Add, file sizes %v: two adjacent tables share a size class = %v, but a compaction was attempted = %v", sizes, adj, attempted))
+				}
+			}
+		}
 	}
 	// C17: an auto-compaction that runs strictly reduces the number of tables
 	if w.Sequential && cr.Kind == OpAutoCompact && !cr.StaleAtStart && cr.Class == "ok" && hs.Open &&
@@ -797,6 +854,15 @@ func (w *World) checkRetry(hs *HandleState, first, retry *CallRec) {
 func (w *World) lockHeldByOpenAddition() bool {
 	for _, hs := range w.Handles {
 		if hs.Tr != nil {
+			return true
+		}
+	}
+	return false
+}
+
+func hasMultiline(logs []Log) bool {
+	for _, l := range logs {
+		if !l.Del && strings.Contains(strings.TrimSuffix(l.Msg, "\n"), "\n") {
 			return true
 		}
 	}
